@@ -34,6 +34,9 @@ pub struct Menu {
     pub breaks: bool,
     pub writes: Vec<Op>,
     pub write_pairs: Vec<(Op, Op)>,
+    /// k-th write offered together with a linearizable read of the given key in one drain cycle
+    #[serde(default)]
+    pub mixed: Vec<(Op, String)>,
     pub max_writes: usize,
     pub write_targets: Targets,
     pub reads: Vec<(String, RPolicy)>,
@@ -66,6 +69,7 @@ impl Default for Menu {
             breaks: false,
             writes: vec![],
             write_pairs: vec![],
+            mixed: vec![],
             max_writes: 0,
             write_targets: Targets::Leaders,
             reads: vec![],
@@ -147,7 +151,7 @@ impl Menu {
         }
 
         // client operations
-        let nwrites = count(c, hist, |e| matches!(e, Event::ClientWrite(..) | Event::ClientWritePair(..)));
+        let nwrites = count(c, hist, |e| matches!(e, Event::ClientWrite(..) | Event::ClientWritePair(..) | Event::ClientMixed(..)));
         if nwrites < self.max_writes {
             for id in &up {
                 let is_leader = c.last_views.get(id).map(|v| v.role == RoleKind::Leader).unwrap_or(false);
@@ -160,6 +164,9 @@ impl Menu {
                 }
                 if let Some((a, b)) = self.write_pairs.get(nwrites) {
                     push(&mut out, Event::ClientWritePair(*id, a.clone(), b.clone()), 0);
+                }
+                if let Some((a, k)) = self.mixed.get(nwrites) {
+                    push(&mut out, Event::ClientMixed(*id, a.clone(), k.clone()), 0);
                 }
             }
         }
